@@ -17,28 +17,36 @@ import fw
 
 sys.path.insert(0, os.path.join(fw.VERIF, "translators"))
 import members_extract  # noqa: E402
+import factory_extract  # noqa: E402
 from props import c10  # noqa: E402  (shared helpers: classes(), quiet, serialisation, snapshots)
 
-LEAN_PROPS = ["NmlVerif.Props.C09"]
+LEAN_PROPS = ["NmlVerif.Props.C09", "NmlVerif.Props.C09Gen", "NmlVerif.Props.C09Tables"]
 LEVEL = "proof"
 RULE = ("streams: (factory) EVERY one of the 199 component types x keyword sets {valid (from MemberSpec types and the "
-        "validate_*_patterns_/enumerations in nml.py), one facet violation, one required member missing, one misspelt "
-        "key (3 spellings), one value the constructor cannot cast} x {ENABLED on/off} x {validate True/False} x "
-        "{string, class} form, through Class.component_factory, neuroml.utils.component_factory; (addtype) every "
-        "(parent type, child type) pair with a candidate member: parent.add(<type>, **kw) with the same keyword sets; "
-        "(session) random enable/disable/call histories through the public switch functions. A case is non-trivial "
-        "when the keywords are not all-valid or validation is off (a branch other than the happy path decides); "
-        "distinct = distinct (type, keyword kind, switch, flag, form, entry point, outcome)")
+        "validate_*_patterns_/enumerations in nml.py), valid+optional, one facet violation, one BOUNDARY spelling of a "
+        "pattern-restricted value (trailing/leading space, line feed, tab, empty string), one required member missing, "
+        "one misspelt key (3 spellings + trailing-underscore forms), one value the constructor cannot cast} x {ENABLED "
+        "on/off} x {validate True/False} x {string, class} form, through Class.component_factory and "
+        "neuroml.utils.component_factory; what the constructor stored is compared attribute by attribute with the "
+        "model's constructor (binding table); (addtype) every (parent type, child type) pair with a candidate member "
+        "plus ambiguous / wrong-hint / no-member calls: parent.add(<type>, **kw); (session) random enable/disable/"
+        "factory/add/helper histories incl. raising calls through the public switch functions; (helpers) every call "
+        "site of component_factory/add inside the helper methods (regenerated table) x {valid, invalid, misspelt} x "
+        "switch. Oracle: explicit validate() AND, for facet/boundary values, libxml2 on the bundled XSD. A case is "
+        "non-trivial when the keywords are not all-valid or validation is off; distinct = distinct (type, keyword "
+        "kind, switch, flag, form, entry point, outcome)")
 TRUST = [
     "translators/members_extract.py (shared with C10; its table is compared with the real _get_members() of every class by C10's members stream and again here through _check_arg_list outcomes)",
-    "decision-level hand model of component_factory/_check_arg_list/add (Model/Factory.lean), tied by correspondence only",
-    "validate(), the generated constructors' casts and Cell.setup_nml_cell are parameters of the model: their verdicts are measured on the real library per case (validate() vs schema is C02/C03, constructors vs table is C11)",
+    "translators/factory_extract.py: statement-level translation of component_factory/_check_arg_list/add/utils wrapper/switch functions, constructor table, ENABLED writers/readers, helper call sites; validated by the correspondence streams (every generated definition is the one the driver runs), not verified",
+    "validate() (vs schema: C02/C03), Python's int()/float() and Cell.setup_nml_cell's effect are parameters of the model, measured on the real library / interpreter per case; the oracle additionally asks libxml2 (bundled XSD) about facet/boundary values",
+    "the placement block of add() is property C10's model (Add.addCore); the translator only checks that it does not touch the gate, the keywords or return early",
 ]
 ASSUMPTIONS = [
-    "keyword VALUES are of the Python kind the member expects (str/number/component/list of components); a value of another Python type (e.g. a list for an integer attribute) makes the constructor raise TypeError, which is neither outcome named by the property: outside the quantifier's three keyword classes",
-    "the type argument names one of the 199 generated component classes (other module attributes: AttributeError/TypeError, outside the quantifier)",
+    "keyword VALUES are of the Python kind the member expects (str/number/component/list of components); a value of another Python type (e.g. a list for an integer attribute) makes the constructor raise TypeError, which is neither outcome named by the property: the statement quantifies over 'valid, facet-violating, misspelt' keyword sets, wrong-typed values are not among them (decided in notes/C09.md, second pass)",
+    "the type argument names one of the 199 generated component classes (other module attributes, subclass instances, non-type objects: AttributeError/TypeError, outside the quantifier)",
     "add() with a component INSTANCE ignores **kwargs entirely (they are only used with a type argument): outside the quantifier, noted in notes/C09.md",
-    "validate() is the non-recursive generatedssupersuper.validate(): 'a component that validate() accepts' is judged by exactly that call",
+    "validate() is the non-recursive generatedssupersuper.validate(): 'a component that validate() accepts' is judged by exactly that call, plus libxml2 for single facet/boundary values",
+    "Cell builder helpers are clients of the factory/add(): the statement's subjects are component_factory and add(); of the helpers the check demands what follows from the statement (switch untouched, misspelt keywords refused, each call site validates iff ENABLED and its flag) — sites with a literal validate=False return unvalidated components by design",
 ]
 
 NUMERIC = {"xs:string": "s1", "xs:float": 0.5, "xs:double": 0.5, "ZeroToOne": 0.5, "xs:nonNegativeInteger": 1,
@@ -147,6 +155,10 @@ def keyword_sets(rng, cname):
         else:
             kw[m[0]] = "not a valid %s!" % m[1]
         out.append(("facet", kw))
+    # one boundary spelling of a pattern-restricted / enumerated string value
+    bkw = boundary_kwargs(rng, cname, base)
+    if bkw is not None:
+        out.append(("boundary", bkw))
     # one required member missing
     req = [k for k in base]
     if req:
@@ -157,14 +169,20 @@ def keyword_sets(rng, cname):
     victim = rng.choice(names) if names else "id"
     camel = re.sub(r"_([a-z])", lambda mm: mm.group(1).upper(), victim)
     spellings = [victim + "s", victim.capitalize() if victim.capitalize() != victim else victim + "_", camel if camel != victim else victim + "Id",
+                 victim + "_", victim.rstrip("_") if victim.endswith("_") else "_" + victim, victim.upper() if victim.upper() != victim else victim.lower(),
                  "gds_collector_", "extensiontype_", "anytypeobjs_"]
-    sp = [s for s in spellings if s not in names]
-    k = rng.choice(sp[:3] if rng.random() < 0.8 else sp)
+    sp = [s for s in spellings if s not in names and s]
+    k = rng.choice(sp[:6] if rng.random() < 0.8 else sp)
+    if rng.random() < 0.25:      # a genuine member name — of ANOTHER class
+        others = sorted({m[0] for c in rng.sample(sorted(C), 6) for m in c10.ref_members(C[c])} - set(names) - {"__ANY__"})
+        if others:
+            k = rng.choice(others)
+    tv = rng.choice(["x1", "x1", "x1", None, "", 0, False])      # … whatever its value (falsy ones included)
     kw = dict(base)
-    kw[k] = "x1"
+    kw[k] = tv
     out.append(("typo", kw))
     if rng.random() < 0.5:
-        kw = {k: "x1"}
+        kw = {k: tv}
         kw.update(base)          # the misspelt key first
         out.append(("typo-first", kw))
     # a value the constructor cannot cast (int()/float() of a word): ValueError from the constructor itself
@@ -175,6 +193,34 @@ def keyword_sets(rng, cname):
         kw[m[0]] = "abc"
         out.append(("cast", kw))
     return out
+
+
+BOUNDARY_FORMS = [("lf-after", lambda v: v + "\n"), ("space-after", lambda v: v + " "), ("space-before", lambda v: " " + v),
+                  ("lf-before", lambda v: "\n" + v), ("tab-after", lambda v: v + "\t"), ("empty", lambda v: ""),
+                  ("lf-inside", lambda v: v[:1] + "\n" + v[1:])]
+
+
+def boundary_members(cname):
+    C = c10.classes()
+    cls = C[cname]
+    return [m for m in sorted(c10.ref_members(cls)) if m[1] not in C and not m[2] and m[0] != "__ANY__"
+            and (getattr(cls, "validate_%s_patterns_" % m[1], None) is not None
+                 or (m[1] in enumerations() and isinstance((enumerations()[m[1]] or [0])[0], str)))
+            and isinstance(sample_simple(cls, m[1]), str)]
+
+
+def boundary_kwargs(rng, cname, base, form=None, member=None):
+    ms = boundary_members(cname)
+    if member is not None:
+        ms = [m for m in ms if m[0] == member]
+    if not ms:
+        return None
+    m = rng.choice(ms)
+    v = base.get(m[0]) if isinstance(base.get(m[0]), str) else sample_simple(c10.classes()[cname], m[1])
+    f = dict(BOUNDARY_FORMS)[form] if form else rng.choice(BOUNDARY_FORMS)[1]
+    kw = dict(base)
+    kw[m[0]] = f(v)
+    return kw
 
 
 def kw_enc(kw):
@@ -212,27 +258,138 @@ def kw_json(kw, ids):
     return [[k, c10.ser_val(v, ids)] for k, v in kw.items()]
 
 
+_DEFAULTS = {}
+
+
+def ctor_defaults(cname):
+    """default literals of the constructors along the MRO (values int()/float() may be applied to)"""
+    if cname not in _DEFAULTS:
+        import inspect
+        out = []
+        for k in c10.classes()[cname].__mro__:
+            f = k.__dict__.get("__init__")
+            if f is None or not hasattr(f, "__code__"):
+                continue
+            for p in inspect.signature(f).parameters.values():
+                if p.default is not inspect.Parameter.empty and isinstance(p.default, (str, int, float, bool)):
+                    if not any(type(x) is type(p.default) and x == p.default for x in out):
+                        out.append(p.default)
+        _DEFAULTS[cname] = out
+    return _DEFAULTS[cname]
+
+
+def cast_table(cname, kw, ids):
+    """Python's int() / float() on every atom among the keyword values and the default literals: the model's
+    `Env.pyInt` / `Env.pyFloat` (a parameter: the interpreter, not the library)"""
+    vals = [v for v in kw.values() if isinstance(v, (str, int, float, bool))] + list(ctor_defaults(cname))
+    out, seen = [], set()
+    for v in vals:
+        key = c10.atom_token(v)
+        if key in seen:
+            continue
+        seen.add(key)
+        for kind, f in (("int", int), ("float", float)):
+            try:
+                r = c10.ser_val(f(v), ids)
+            except (ValueError, OverflowError):
+                r = None
+            out.append([kind, c10.ser_val(v, ids), r])
+    return out
+
+
+class Measured:
+    """what is measured on the real library WITHOUT the factory: cf: the constructor itself raises ValueError;
+    cv: real validate() accepts what the constructor (+ Cell setup) builds; plain: that object; cellset: the
+    attributes Cell.setup_nml_cell left behind"""
+
+    def __init__(self, cname, kw, ids):
+        C = c10.classes()
+        self.cf, self.cv, self.odd, self.plain, self.cellset = False, False, None, None, []
+        self.casts = cast_table(cname, kw, ids)
+        try:
+            with c10.quiet():
+                o = C[cname](**kw)
+                if cname == "Cell":
+                    before = dict(vars(o))
+                    o.setup_nml_cell()
+                    self.cellset = [[k, c10.ser_val(v, ids)] for k, v in vars(o).items()
+                                    if k not in c10.EXCL and (k not in before or before[k] is not v)]
+        except ValueError:
+            self.cf = True
+            return
+        except Exception as e:  # noqa
+            self.odd = "ctor:%s" % type(e).__name__
+            return
+        v = c10.validity(o)
+        self.cv, self.plain = bool(v), o
+        if v is None:
+            self.odd = "validate-crashed"
+
+    def call_fields(self, oid):
+        return {"cv": self.cv, "oid": oid, "casts": self.casts, "cellset": self.cellset}
+
+
 def measure(cname, kw):
-    """cf: the constructor itself raises ValueError; cv: real validate() accepts what the constructor (+ Cell setup)
-    builds. Measured WITHOUT the factory."""
-    C = c10.classes()
+    m = Measured(cname, kw, c10.Ids())
+    return (True if m.cf else (None if m.odd and m.plain is None else False)), m.cv, m.odd, m.plain
+
+
+_MISSING = ["missing-attribute"]
+
+
+def real_fields(o, names, ids):
+    """the attributes `names` of the really constructed object, in the canonical form of the driver"""
+    d = vars(o)
+    return [[n, c10.shallow(d[n], ids) if n in d else _MISSING] for n in names]
+
+
+def stored_as_given(v, got):
+    if got is v:
+        return True
+    if v is None:
+        return got is None or got == []
+    if isinstance(v, bool) or isinstance(got, bool):
+        return type(got) is type(v) and got == v
+    if isinstance(got, (int, float)):
+        try:
+            return float(v) == float(got) or (got != got and float(v) != float(v))
+        except (TypeError, ValueError):
+            return False
+    return type(got) is type(v) and got == v
+
+
+_XSD_BASE = {}
+
+
+def xsd_says(o, cname):
+    """libxml2's verdict on the component written on its own (None: could not be written / no verdict)"""
+    import bindgen
     try:
         with c10.quiet():
-            o = C[cname](**kw)
-            if cname == "Cell":
-                o.setup_nml_cell()
-    except ValueError:
-        return True, False, None, None
-    except Exception as e:  # noqa
-        return None, False, "ctor:%s" % type(e).__name__, None
-    v = c10.validity(o)
-    return False, bool(v), (None if v is not None else "validate-crashed"), o
+            ok, _msg, _text = bindgen.xsd_verdict(o, cname)
+        return bool(ok)
+    except Exception:  # noqa
+        return None
 
 
-def member_fields(o, ids):
-    if o is None:
-        return []
-    return [[m[0], c10.ser_val(vars(o)[m[0]], ids)] for m in c10.ref_members(type(o)) if m[0] in vars(o)]
+def xsd_base_ok(cname):
+    """the all-valid keyword set of the class gives a schema-valid element — as the factory would build it (Cell: after
+    setup_nml_cell) — so that ONE changed value decides"""
+    if cname not in _XSD_BASE:
+        try:
+            M = Measured(cname, valid_kwargs(cname), c10.Ids())
+            _XSD_BASE[cname] = M.plain is not None and xsd_says(M.plain, cname) is True
+        except Exception:  # noqa
+            _XSD_BASE[cname] = False
+    return _XSD_BASE[cname]
+
+
+def changed_values(cname, kw):
+    """(member, data type, value) of the simple-typed keywords that differ from the all-valid keyword set"""
+    base = valid_kwargs(cname)
+    dts = dict((m[0], m[1]) for m in c10.ref_members(c10.classes()[cname]))
+    return [(k, dts.get(k, "?"), v) for k, v in kw.items()
+            if not c10._is_gen(v) and not isinstance(v, list) and (k not in base or type(base[k]) is not type(v) or base[k] != v)]
 
 
 def classify(e):
@@ -284,10 +441,12 @@ def factory_case(ctx, case):
     cname, kw = case["cls"], case["_kw"]
     C = c10.classes()
     names = [m[0] for m in c10.ref_members(C[cname])]
-    cf, cv, odd, plain = measure(cname, kw)
     ids = c10.Ids()
-    line = {"op": "factory", "en": case["en"], "cls": cname, "form": case["form"], "kw": kw_json(kw, ids),
-            "flag": case["flag"], "cf": bool(cf), "cv": cv, "oid": 1000, "fields": member_fields(plain, ids)}
+    M = Measured(cname, kw, ids)
+    cf, cv, odd, plain = M.cf, M.cv, M.odd, M.plain
+    line = {"op": "factory", "en": case["en"], "ep": case["ep"], "cls": cname, "form": case["form"], "kw": kw_json(kw, ids),
+            "flag": case["flag"]}
+    line.update(M.call_fields(1000))
     saved = c10.get_switch()
     ret, exc = None, None
     try:
@@ -325,6 +484,12 @@ def factory_case(ctx, case):
         v = c10.validity(ret)
         if gate and v is not True:
             fail("C09:invalid-returned:" + case["kind"], "validation on, yet the returned %s fails an explicit validate()" % cname)
+        if gate and case["kind"] in ("facet", "boundary") and xsd_base_ok(cname) and xsd_says(ret, cname) is False:
+            # the library's own validate() is not the only judge: one changed value, and libxml2 rejects it
+            ch = changed_values(cname, kw)
+            fail("C09:invalid-returned:xsd:%s:%s" % (case["kind"], "+".join(sorted({c[1] for c in ch})) or "?"),
+                 "validation on, the factory returned a %s that the XML Schema rejects (the all-valid keyword set is schema-valid; "
+                 "changed value: %r)" % (cname, ch))
         if not gate and v != cv:
             fail("C09:off-changed-component", "validation off: the returned component validates=%s, the plainly constructed one %s" % (v, cv))
     else:
@@ -333,7 +498,18 @@ def factory_case(ctx, case):
                  "constructor fine, yet the call raised %s" % (case["en"], case["flag"], tag))
         if gate and not bad_keys and cf is False and cv:
             fail("C09:valid-refused", "a valid %s was refused: %s" % (cname, tag))
-    return line, rec, odd
+    if plain is not None:
+        # a member keyword arrives under the attribute of its own name (c09_tree_member_keyword_stored), judged without
+        # the model: identity for strings / components / lists, numeric equality for what int()/float() cast
+        wrong = [k for k, v_ in kw.items() if k in names and k != "__ANY__" and not stored_as_given(v_, vars(plain).get(k, _MISSING))]
+        if wrong:
+            fail("C09:keyword-misplaced", "member keyword(s) %s of %s did not arrive under the attribute of the same name (got %r)"
+                 % (wrong, cname, [vars(plain).get(k, "<no attribute>") for k in wrong][:3]))
+    if gate and case["kind"] in ("facet", "boundary") and plain is not None and xsd_base_ok(cname):
+        x = xsd_says(plain, cname)
+        ctx.count("xsd:%s:validate=%s,schema=%s" % (case["kind"], "accepts" if cv else "rejects",
+                                                   "accepts" if x else ("rejects" if x is False else "n/a")))
+    return line, rec, odd, (plain, ids)
 
 
 def gen_factory_cases(ctx, names, per_class_settings):
@@ -358,14 +534,14 @@ def gen_factory_cases(ctx, names, per_class_settings):
 def run_factory(ctx, cases, stream="factory"):
     lines, recs = [], []
     for case in cases:
-        line, rec, odd = factory_case(ctx, case)
+        line, rec, odd, real = factory_case(ctx, case)
         lines.append(json.dumps(line))
-        recs.append((case, rec, odd))
+        recs.append((case, rec, odd, real))
     rc, out = fw.run_driver("C09", lines, timeout=3000)
     if rc != 0 or len(out) != len(lines):
         ctx.disagree("driver", "%s: driver failed rc=%s (%d/%d)" % (stream, rc, len(out), len(lines)), "\n".join(out[-3:])[:400], None)
         out = [None] * len(lines)
-    for (case, rec, odd), l in zip(recs, out):
+    for (case, rec, odd, (plain, ids)), l in zip(recs, out):
         pub = {k: v for k, v in case.items() if not k.startswith("_")}
         ctx.count("%s:%s" % (stream, case["kind"]))
         ctx.count("outcome:" + ":".join(rec["r"].split(":")[:2]))
@@ -377,10 +553,21 @@ def run_factory(ctx, cases, stream="factory"):
         if l is not None:
             ctx.corr_evals += 1
             model = json.loads(l)
-            model.pop("landed", None)
+            mf = model.pop("fields", None)
             if model != rec:
                 ctx.disagree(stream, pub, rec, model)
-    for case, rec, _ in recs[:3]:
+                continue
+            # what the constructor stored, attribute by attribute (model: constructor table of the bindings)
+            if (mf is None) != (plain is None):
+                ctx.disagree(stream + ":stored", pub, "constructed" if plain is not None else "constructor raised",
+                             "constructed" if mf is not None else "constructor raises")
+            elif mf is not None:
+                rf = real_fields(plain, [n for n, _ in mf], ids)
+                ctx.count("stored-attributes-compared", len(mf))
+                if rf != mf:
+                    diff = [[a, b] for a, b in zip(rf, mf) if a != b][:4]
+                    ctx.disagree(stream + ":stored", pub, diff, "(real, model) attribute pairs that differ")
+    for case, rec, _, _r in recs[:3]:
         ctx.sample({k: v for k, v in case.items() if not k.startswith("_")} | {"result": rec["r"]})
 
 
@@ -404,11 +591,22 @@ def addtype_script(rng, p, child, member, ncand):
     for kind, kw in sets[:4]:
         en, fl = rng.choice([(True, True), (True, True), (True, False), (False, True), (False, False)])
         hint = member if ncand > 1 else rng.choice([None, None, member])
+        r = rng.random()
+        if r < 0.06:
+            hint = None                 # several candidate members and no hint: "Multiple members can accept …"
+        elif r < 0.12:
+            hint = "no_such_member"     # a hint naming none of the candidates (ignored when there is one candidate)
         calls.append(with_kw({"cls": child, "form": rng.choice(["str", "class"]), "kind": kind, "en": en, "flag": fl,
                               "hint": hint, "force": rng.random() < 0.2}, kw))
     if rng.random() < 0.5:       # the same valid keywords again: an equal component is made and refused as duplicate
         c0 = dict(calls[0])
         calls.append(c0)
+    if rng.random() < 0.08:      # a type the parent has no member for: the component is made, then add() raises
+        other = rng.choice(sorted(c10.classes()))
+        if not any(m[1] == other for m in c10.ref_members(c10.classes()[p])):
+            k, kw = keyword_sets(rng, other)[0]
+            calls.append(with_kw({"cls": other, "form": rng.choice(["str", "class"]), "kind": k, "en": rng.random() < 0.7,
+                                  "flag": rng.random() < 0.7, "hint": None, "force": False}, kw))
     return {"parent": p, "parent_valid_kw": rng.random() < 0.7, "calls": calls}
 
 
@@ -428,7 +626,8 @@ def run_addtype(ctx, scripts, stream="addtype"):
         for call in s["calls"]:
             kw = call["_kw"]
             cname = call["cls"]
-            cf, cv, odd, plain = measure(cname, kw)
+            M = Measured(cname, kw, ids)
+            cf, cv, odd, plain = M.cf, M.cv, M.odd, M.plain
             child_names = [m[0] for m in c10.ref_members(C[cname])]
             before = c10.snapshot(parent, ids)
             ret, exc, tags = None, None, []
@@ -470,10 +669,10 @@ def run_addtype(ctx, scripts, stream="addtype"):
             tag = "ok" if exc is None else classify(exc)
             rec = {"r": tag, "w": tags[0] if len(tags) == 1 else (None if not tags else "+".join(tags)),
                    "ret": next_oid if exc is None else None, "ch": ch}
-            line["calls"].append({"cls": cname, "form": call["form"], "kw": kw_json(kw, ids), "flag": call["flag"],
-                                  "cf": bool(cf), "cv": cv, "oid": next_oid, "en": call["en"], "hint": call["hint"],
-                                  "force": call["force"], "pv": bool(pv), "sok": sok,
-                                  "fields": member_fields(plain, ids)})
+            cl = {"cls": cname, "form": call["form"], "kw": kw_json(kw, ids), "flag": call["flag"], "en": call["en"],
+                  "hint": call["hint"], "force": call["force"], "pv": bool(pv), "sok": sok}
+            cl.update(M.call_fields(next_oid))
+            line["calls"].append(cl)
             pub = {k: v for k, v in call.items() if not k.startswith("_")}
             pub["parent"] = s["parent"]
             # ---- oracle
@@ -530,14 +729,24 @@ def run_addtype(ctx, scripts, stream="addtype"):
 # ------------------------------------------------------------------ sessions: the public switch functions
 def gen_session(rng, names):
     cmds = []
+    ps = pairs()
     for _ in range(rng.randint(3, 10)):
         r = rng.random()
-        if r < 0.25:
+        if r < 0.22:
             cmds.append(["enable"])
-        elif r < 0.5:
+        elif r < 0.44:
             cmds.append(["disable"])
+        elif r < 0.56:
+            # add(<type>) on a fresh parent, under whatever the history left
+            (p, child, member, _cont, ncand) = rng.choice(ps)
+            kind, kw = rng.choice(keyword_sets(rng, child))
+            cmds.append(["addt", with_kw({"cls": child, "form": rng.choice(["str", "class"]), "kind": kind,
+                                          "flag": rng.random() < 0.75, "parent": p, "hint": member if ncand > 1 else None,
+                                          "force": False}, kw)])
+        elif r < 0.66:
+            cmds.append(["helper", rng.choice(sorted(HELPERS))])
         else:
-            cname = rng.choice(names)
+            cname = "Cell" if rng.random() < 0.15 else rng.choice(names)
             kind, kw = rng.choice(keyword_sets(rng, cname))
             cmds.append(["make", with_kw({"cls": cname, "form": rng.choice(["str", "class"]), "kind": kind,
                                           "flag": rng.random() < 0.75}, kw)])
@@ -554,12 +763,14 @@ def reenable_session(rng, cname):
     def mk(kind, kw, flag=True):
         return ["make", with_kw({"cls": cname, "form": rng.choice(["str", "class"]), "kind": kind, "flag": flag}, kw)]
     k = "facet" if "facet" in sets else "missing"
-    return {"init": True, "cmds": [mk(k, bad), ["disable"], mk(k, bad), mk(k, bad, False), ["enable"], mk(k, bad),
-                                   mk("valid", sets["valid"]), mk(k, bad, False)]}
+    cell = ["make", with_kw({"cls": "Cell", "form": "str", "kind": "valid", "flag": True}, valid_kwargs("Cell"))]
+    return {"init": True, "cmds": [mk(k, bad), ["disable"], mk(k, bad), cell, mk(k, bad, False), mk(k, bad), ["enable"],
+                                   mk(k, bad), mk("valid", sets["valid"]), mk(k, bad, False)]}
 
 
 def run_sessions(ctx, sessions, stream="session"):
     import neuroml
+    C = c10.classes()
     lines, recs = [], []
     for s in sessions:
         saved = c10.get_switch()
@@ -578,33 +789,67 @@ def run_sessions(ctx, sessions, stream="session"):
                     switch_to(False)
                     expect = False
                     mcmds.append(["disable"])
+                elif c[0] == "helper":
+                    # a Cell builder helper in the middle of the history: not a command of the model (helpers write no
+                    # switch: c09_gen_switch_writers) — whatever it returns or raises, the switch must read as before
+                    try:
+                        run_helper(HELPERS[c[1]], expect, quiet_only=True)
+                    except Exception:  # noqa
+                        pass
+                    ctx.count("session:helper")
                 else:
                     d = c[1]
                     oid += 1
-                    cf, cv, odd, _o = measure(d["cls"], d["_kw"])
+                    M = Measured(d["cls"], d["_kw"], ids)
+                    cf, cv, odd = M.cf, M.cv, M.odd
                     odd_any = odd_any or bool(odd)
                     exc, ret = None, None
-                    try:
-                        ret = call_factory("cls", d["cls"], d["form"], d["flag"], d["_kw"])
-                    except Exception as e:  # noqa
-                        exc = e
+                    names_c = [m[0] for m in c10.ref_members(C[d["cls"]])]
+                    mline = {"cls": d["cls"], "form": d["form"], "kw": kw_json(d["_kw"], ids), "flag": d["flag"]}
+                    mline.update(M.call_fields(oid))
+                    if c[0] == "make":
+                        try:
+                            ret = call_factory("cls", d["cls"], d["form"], d["flag"], d["_kw"])
+                        except Exception as e:  # noqa
+                            exc = e
+                    else:
+                        with c10.quiet():
+                            parent = C[d["parent"]](**{k: v for k, v in valid_kwargs(d["parent"]).items() if not isinstance(v, list)})
+                        mline["parent"] = c10.ser_obj(parent, ids)
+                        import warnings
+                        with c10.quiet(), warnings.catch_warnings():
+                            warnings.simplefilter("ignore")
+                            try:
+                                ret = parent.add(type_arg(d["cls"], d["form"]), hint=d["hint"], force=d["force"],
+                                                 validate=d["flag"], **d["_kw"])
+                            except Exception as e:  # noqa
+                                exc = e
+                        try:
+                            with c10.quiet():
+                                str(ret if ret is not None else C[d["cls"]](**d["_kw"]))
+                            sok = True
+                        except Exception:  # noqa
+                            sok = False
+                        mline.update({"hint": d["hint"], "force": d["force"], "pv": bool(c10.validity(parent)), "sok": sok})
                     tag = "ok" if exc is None else classify(exc)
                     res.append(tag)
-                    mcmds.append(["make", {"cls": d["cls"], "form": d["form"], "kw": kw_json(d["_kw"], ids),
-                                           "flag": d["flag"], "cf": bool(cf), "cv": cv, "oid": oid}])
+                    mcmds.append([c[0], mline])
                     pub = {k: v for k, v in d.items() if not k.startswith("_")}
                     gate = expect and d["flag"]
-                    ctx.count("session:make:" + ("checked" if gate else "unchecked"))
-                    ctx.seen(["session", d["cls"], d["kind"], expect, d["flag"], tag], nontrivial=True)
+                    ctx.count("session:%s:%s" % (c[0], "checked" if gate else "unchecked"))
+                    ctx.seen(["session", c[0], d["cls"], d["kind"], expect, d["flag"], tag], nontrivial=True)
                     if exc is None and gate and c10.validity(ret) is not True:
                         ctx.fail("C09:invalid-returned:session", "the last toggle was enable and validate=True, yet an invalid %s came back"
                                  % d["cls"], {"session": _pub_session(s), "at": pub})
-                    if exc is not None and not gate and cf is False and all(k in [m[0] for m in c10.ref_members(c10.classes()[d["cls"]])] for k in d["_kw"]):
+                    if exc is not None and not gate and cf is False and isinstance(exc, ValueError) \
+                            and not tag.startswith("err:add:") and all(k in names_c for k in d["_kw"]):
                         ctx.fail("C09:raised-although-off:session", "the last toggle was disable (or validate=False), yet the call raised %s" % tag,
                                  {"session": _pub_session(s), "at": pub})
                 if neuroml.get_build_time_validation() != expect:
-                    ctx.fail("C09:switch-state", "get_build_time_validation() is %s after %s" % (neuroml.get_build_time_validation(), c[0]),
+                    ctx.fail("C09:switch-state", "get_build_time_validation() is %s after %s (the last toggle left %s)"
+                             % (neuroml.get_build_time_validation(), c[0] if c[0] != "helper" else "helper " + c[1], expect),
                              {"session": _pub_session(s)})
+                    c10.set_switch(expect)       # go on from the state the history should be in
             final = c10.get_switch()
         finally:
             c10.set_switch(saved)
@@ -625,8 +870,206 @@ def run_sessions(ctx, sessions, stream="session"):
 
 
 def _pub_session(s):
-    return {"init": s["init"], "cmds": [c if c[0] != "make" else ["make", {k: v for k, v in c[1].items() if not k.startswith("_")}]
+    return {"init": s["init"], "cmds": [c if c[0] not in ("make", "addt") else [c[0], {k: v for k, v in c[1].items() if not k.startswith("_")}]
                                          for c in s["cmds"]]}
+
+
+# ------------------------------------------------------------------ helpers: every call site of the regenerated table
+def _cell(cid="c0"):
+    import neuroml
+    with c10.quiet():
+        c = neuroml.Cell(id=cid)
+        c.setup_nml_cell()
+    return c
+
+
+def _cell2():
+    c = _cell()
+    with c10.quiet():
+        saved = c10.get_switch()
+        c10.set_switch(False)
+        try:
+            s0 = c.add_segment([0, 0, 0, 2], [10, 0, 0, 2], seg_type="soma", name="soma")
+            s1 = c.add_segment([10, 0, 0, 1], [20, 0, 0, 1], seg_type="dendrite", parent=s0, name="d0")
+            c.add_segment([20, 0, 0, 1], [30, 0, 0, 1], seg_type="dendrite", parent=s1, name="d1")
+        finally:
+            c10.set_switch(saved)
+    return c
+
+
+def _doc(with_id=True):
+    import neuroml
+    return neuroml.NeuroMLDocument(id="d0") if with_id else neuroml.NeuroMLDocument()
+
+
+CD = dict(id="cd0", ion_channel="kChan", cond_density="1 S_per_m2", erev="-77 mV", ion="k")
+
+# name -> {method, site: (callee, literal type | None) the input is aimed at, kind: valid | invalid | typo,
+#          call: () -> result}.  `invalid`: the component made at (or the parent validated by) THAT site is invalid.
+HELPERS = {
+    "memb:valid": {"method": "add_membrane_property", "site": ("add", None), "kind": "valid",
+                   "call": lambda: _cell().add_membrane_property("SpikeThresh", value="-20mV")},
+    "memb:valid:class": {"method": "add_membrane_property", "site": ("add", None), "kind": "valid",
+                         "call": lambda: _cell().add_membrane_property(c10.classes()["SpikeThresh"], value="-20mV")},
+    "memb:invalid": {"method": "add_membrane_property", "site": ("add", None), "kind": "invalid",
+                     "call": lambda: _cell().add_membrane_property("SpikeThresh", value="minus twenty")},
+    "memb:invalid:lf": {"method": "add_membrane_property", "site": ("add", None), "kind": "invalid",
+                        "call": lambda: _cell().add_membrane_property("SpikeThresh", value="-20mV\n")},
+    "memb:typo": {"method": "add_membrane_property", "site": ("add", None), "kind": "typo",
+                  "call": lambda: _cell().add_membrane_property("SpikeThresh", value="-20mV", segment_group="all")},
+    "intra:valid": {"method": "add_intracellular_property", "site": ("add", None), "kind": "valid",
+                    "call": lambda: _cell().add_intracellular_property("Resistivity", value="0.1 kohm_cm")},
+    "intra:invalid": {"method": "add_intracellular_property", "site": ("add", None), "kind": "invalid",
+                      "call": lambda: _cell().add_intracellular_property("Resistivity", value="0.1 kohm")},
+    "intra:invalid:lf": {"method": "add_intracellular_property", "site": ("add", None), "kind": "invalid",
+                         "call": lambda: _cell().add_intracellular_property("Resistivity", value="0.1 kohm_cm\n")},
+    "intra:typo": {"method": "add_intracellular_property", "site": ("add", None), "kind": "typo",
+                   "call": lambda: _cell().add_intracellular_property(c10.classes()["Resistivity"], value="0.1 kohm_cm", segmentGroups="all")},
+    "seggroup:valid": {"method": "add_segment_group", "site": ("add", "SegmentGroup"), "kind": "valid",
+                       "call": lambda: _cell().add_segment_group("dend_1")},
+    "seggroup:invalid": {"method": "add_segment_group", "site": ("add", "SegmentGroup"), "kind": "invalid",
+                         "call": lambda: _cell().add_segment_group("not a valid id")},
+    "segment:valid": {"method": "add_segment", "site": ("factory", "Segment"), "kind": "valid",
+                      "call": lambda: _cell().add_segment([0, 0, 0, 2], [10, 0, 0, 2], seg_type="soma")},
+    "segment:invalid-point": {"method": "add_segment", "site": ("factory", "Point3DWithDiam"), "kind": "invalid",
+                              "call": lambda: _cell().add_segment([0, 0, 0, 2], [None, 0, 0, 2], seg_type="soma")},
+    "segment:invalid-parent": {"method": "add_segment", "site": ("factory", "SegmentParent"), "kind": "invalid",
+                               "call": lambda: (lambda c: c.add_segment([10, 0, 0, 1], [20, 0, 0, 1], seg_type="dendrite",
+                                                                        parent=c.morphology.segments[0], fraction_along=7.5))(_cell2())},
+    "cdv:valid": {"method": "add_channel_density_v", "site": ("add", "IncludeType"), "kind": "valid",
+                  "call": lambda: _cell().add_channel_density_v("ChannelDensity", _doc(), ion_chan_def_file="k.channel.nml", **CD)},
+    "cdv:invalid-doc": {"method": "add_channel_density_v", "site": ("add", "IncludeType"), "kind": "invalid",
+                        "call": lambda: _cell().add_channel_density_v("ChannelDensity", _doc(False), ion_chan_def_file="k.channel.nml", **CD)},
+    "cdv:typo": {"method": "add_channel_density_v", "site": ("add", "IncludeType"), "kind": "typo",
+                 "call": lambda: _cell().add_channel_density_v("ChannelDensity", _doc(), ion_chan_def_file="k.channel.nml",
+                                                               condDensity="1 S_per_m2", **CD)},
+    "cd:valid": {"method": "add_channel_density", "site": ("add", "IncludeType"), "kind": "valid",
+                 "call": lambda: _cell().add_channel_density(_doc(), "cd0", "kChan", "1 S_per_m2", ion_chan_def_file="k.channel.nml")},
+    "cd:invalid-doc": {"method": "add_channel_density", "site": ("add", "IncludeType"), "kind": "invalid",
+                       "call": lambda: _cell().add_channel_density(_doc(False), "cd0", "kChan", "1 S_per_m2", ion_chan_def_file="k.channel.nml")},
+    "setup:invalid-cell": {"method": "setup_nml_cell", "site": ("add", "Morphology"), "kind": "invalid",
+                           "call": lambda: __import__("neuroml").Cell(id="not a valid id").setup_nml_cell()},
+    "append:valid": {"method": "append", "site": ("add", None), "kind": "valid",
+                     "call": lambda: _doc().append(__import__("neuroml").IafCell(id="iaf0"))},
+    "append:invalid-doc": {"method": "append", "site": ("add", None), "kind": "invalid",
+                           "call": lambda: _doc(False).append(__import__("neuroml").IafCell(id="iaf0"))},
+    "sectionise:valid": {"method": "__sectionise", "site": ("add", "Member"), "kind": "valid",
+                         "call": lambda: _cell2().create_unbranched_segment_group_branches(0, use_convention=True)},
+}
+
+
+def site_of(h, sites):
+    """index of the call site (regenerated table) a helper invocation is aimed at"""
+    for i, s in enumerate(sites):
+        if s[1] == h["method"] and s[2] == h["site"][0] and s[3] == h["site"][1]:
+            return i
+    return None
+
+
+def run_helper(h, en, quiet_only=False):
+    """-> (tag, result, switch afterwards); the caller restores the switch"""
+    import warnings
+    c10.set_switch(en)
+    ret, exc = None, None
+    with c10.quiet(), warnings.catch_warnings():
+        warnings.simplefilter("ignore")
+        try:
+            ret = h["call"]()
+        except Exception as e:  # noqa
+            exc = e
+    return ("ok" if exc is None else classify(exc)), ret, exc, c10.get_switch()
+
+
+_SITES = None
+
+
+def model_sites():
+    global _SITES
+    if _SITES is None:
+        rc, out = fw.run_driver("C09", [json.dumps({"op": "sites"})], timeout=600)
+        _SITES = json.loads(out[0]) if rc == 0 and out else {"sites": [], "initial": None}
+    return _SITES
+
+
+def run_helpers(ctx, names=None, stream="helpers"):
+    ms = model_sites()
+    sites = ms["sites"]
+    covered = set()
+    for name in (names or sorted(HELPERS)):
+        h = HELPERS[name]
+        si = site_of(h, sites)
+        if si is None:
+            ctx.disagree(stream, {"helper": name}, "call site %s.%s(%s) exists in the harness" % (h["method"], h["site"][0], h["site"][1]),
+                         "not in the regenerated table of call sites")
+            continue
+        covered.add(sites[si][1])
+        flag = sites[si][4]
+        for en in (True, False):
+            saved = c10.get_switch()
+            try:
+                tag, ret, exc, after = run_helper(h, en)
+            finally:
+                c10.set_switch(saved)
+            # the model: the site validates iff ENABLED and its flag (Site.validates; c09_site_flag)
+            validates = en and {"dflt": True, "lit:True": True, "lit:False": False}.get(flag, True)
+            expect = {"valid": "ok", "typo": "err:badArg", "invalid": "err:invalid" if validates else "ok"}[h["kind"]]
+            case = {"helper": name, "en": en, "site": sites[si][:5]}
+            ctx.count("helpers:%s:%s" % (h["kind"], "validates" if validates else "unvalidated"))
+            ctx.seen(["helper", name, en, tag], nontrivial=True)
+            ctx.corr_evals += 1
+            if ":".join(tag.split(":")[:2]) != expect:
+                ctx.disagree(stream, case, tag, expect)
+
+            def fail(key, what):
+                ctx.fail(key, what, {"helper": case, "observed": tag})
+            if after != en:
+                fail("C09:switch-changed:helper", "%s left the switch at %s (it was %s)" % (h["method"], after, en))
+            if exc is not None and not isinstance(exc, ValueError):
+                fail("C09:non-valueerror:helper", "%s raised %s" % (h["method"], tag))
+            if h["kind"] == "typo" and not (isinstance(exc, ValueError) and tag.startswith("err:badArg")):
+                fail("C09:typo-accepted:helper", "%s accepted a keyword that is not a member (%s)" % (h["method"], tag))
+            if not en and isinstance(exc, ValueError) and tag == "err:invalid":
+                fail("C09:raised-although-off:helper", "validation disabled globally, yet %s validated (%s)" % (h["method"], tag))
+            if en and flag in ("dflt", "lit:True") and exc is None and c10._is_gen(ret) and c10.validity(ret) is not True \
+                    and h["site"][0] in ("add", "factory") and h["kind"] != "valid":
+                fail("C09:invalid-returned:helper", "validation on, the call site validates by its flag, yet %s returned an invalid %s"
+                     % (h["method"], type(ret).__name__))
+    missing = sorted({s[1] for s in sites} - {HELPERS[n]["method"] for n in HELPERS})
+    for m in missing:
+        ctx.disagree(stream, {"method": m}, "no invocation in the harness", "call site in the regenerated table")
+    ctx.extra["helper_sites"] = {"sites": len(sites), "methods": sorted({s[1] for s in sites}), "exercised_methods": sorted(covered),
+                                 "unvalidated_by_design": sorted({"%s.%s(%s)" % (s[0], s[1], s[3]) for s in sites if s[4] == "lit:False"})}
+
+
+def run_misc(ctx):
+    """`add()` without an object prints info() and returns None; the default state of the switch in a fresh interpreter"""
+    import subprocess
+    C = c10.classes()
+    for cname in ("NeuroMLDocument", "Network", "Cell"):
+        with c10.quiet():
+            p = C[cname](id="x1")
+            ids = c10.Ids()
+            before = c10.snapshot(p, ids)
+            sw = c10.get_switch()
+            r1 = p.add()
+            r2 = p.add("", id="zz")
+            after = c10.snapshot(p, ids)
+        ctx.seen(["misc", "add-none", cname], nontrivial=True)
+        ctx.count("misc:add-without-object")
+        if r1 is not None or r2 is not None or before != after or c10.get_switch() != sw:
+            ctx.fail("C09:add-none", "add() without an object did something", {"misc": "add-none", "cls": cname})
+    env = dict(os.environ)
+    env["PYTHONPATH"] = fw.REPO + os.pathsep + env.get("PYTHONPATH", "")
+    pr = subprocess.run([sys.executable, "-c", "import neuroml,sys; import neuroml.build_time_validation as b; "
+                         "print(neuroml.get_build_time_validation() is True and b.ENABLED is True)"],
+                        env=env, capture_output=True, text=True, timeout=120)
+    ctx.seen(["misc", "default-switch"], nontrivial=True)
+    ctx.corr_evals += 1
+    real_default = pr.stdout.strip().endswith("True")
+    if real_default != bool(model_sites().get("initial")):
+        ctx.disagree("default", {"misc": "default-switch"}, real_default, model_sites().get("initial"))
+    if not real_default:
+        ctx.fail("C09:default-off", "build-time validation is not enabled in a fresh interpreter", {"misc": "default-switch"})
 
 
 # ------------------------------------------------------------------ corpus (fixed cases, run first)
@@ -635,7 +1078,7 @@ def corpus_cases(ctx):
     out = []
     fixed = [("Network", "typo"), ("IafCell", "facet"), ("IafCell", "missing"), ("Cell", "valid"), ("Cell", "typo"),
              ("Population", "cast"), ("NeuroMLDocument", "valid"), ("HHRate", "typo"), ("Annotation", "typo"),
-             ("Property", "missing")]
+             ("Property", "missing"), ("SegmentParent", "valid"), ("ContinuousConnection", "valid"), ("Cell", "boundary")]
     for cname, kind in fixed:
         sets = dict((k, v) for k, v in keyword_sets(rng, cname))
         if kind not in sets:
@@ -645,32 +1088,98 @@ def corpus_cases(ctx):
                 for form in ("str", "class"):
                     out.append(with_kw({"cls": cname, "form": form, "kind": kind, "en": en, "flag": fl,
                                         "ep": "utils" if form == "class" else "cls", "via": "NeuroMLDocument"}, sets[kind]))
+    # boundary spellings of pattern-restricted values (one trailing line feed is what Python's `$` lets through):
+    # every form, for an inherited id, an own quantity and an enumerated value; trailing-underscore misspellings
+    for cname, member in (("Population", "id"), ("SpikeThresh", "value"), ("IafCell", "id"), ("IafCell", "thresh"),
+                          ("Cell", "id"), ("SegmentGroup", "id"), ("Input", "target"), ("Population", "type")):
+        base = valid_kwargs(cname)
+        for form_name, _f in BOUNDARY_FORMS:
+            kw = boundary_kwargs(rng, cname, base, form=form_name, member=member)
+            if kw is None:
+                continue
+            for (en, fl) in ((True, True), (False, True)):
+                out.append(with_kw({"cls": cname, "form": "str" if en else "class", "kind": "boundary", "en": en, "flag": fl,
+                                    "ep": "utils" if fl and form_name == "lf-after" else "cls", "via": "Network"}, kw))
+    # the two open findings (validate() does not know the range of the builtin integer types): reproduced every run
+    for cname, member, val in (("BaseNonNegativeIntegerId", "id", -3), ("GateHHRates", "instances", 0),
+                               ("Member", "segments", -1), ("SegmentParent", "segments", -7)):
+        kw = dict(valid_kwargs(cname))
+        kw[member] = val
+        for (en, fl) in ((True, True), (False, True)):
+            out.append(with_kw({"cls": cname, "form": "str", "kind": "facet", "en": en, "flag": fl, "ep": "utils" if en else "cls",
+                                "via": "NeuroMLDocument"}, kw))
+    for cname, key in (("IafCell", "notes_"), ("IafCell", "neuro_lex_id_"), ("TauInfTransition", "to_"), ("IafCell", "ID"),
+                       ("Population", "_id"), ("HHRate", "midPoint")):
+        kw = dict(valid_kwargs(cname))
+        kw[key] = "x1"
+        for (en, fl) in ((True, True), (True, False), (False, False)):
+            out.append(with_kw({"cls": cname, "form": "str", "kind": "typo", "en": en, "flag": fl, "ep": "cls",
+                                "via": "NeuroMLDocument"}, kw))
     return out
+
+
+def corpus_sessions(ctx):
+    """the history of seeded/C09-2: disable, build a Cell (setup_nml_cell runs inside the factory), then an invalid
+    component must still come back unvalidated; plus a raising call between the toggles"""
+    rng = ctx.rng
+    net = dict(keyword_sets(rng, "Network"))
+    iaf = dict(keyword_sets(rng, "IafCell"))
+
+    def mk(cname, kind, kw, flag=True, form="str"):
+        return ["make", with_kw({"cls": cname, "form": form, "kind": kind, "flag": flag}, kw)]
+    cellv = valid_kwargs("Cell")
+    return [
+        {"init": True, "cmds": [["disable"], mk("Cell", "valid", cellv), mk("Network", "missing", net["missing"]),
+                                mk("IafCell", "missing", iaf["missing"], True, "class"), ["helper", "memb:valid"],
+                                mk("Network", "missing", net["missing"]), ["enable"], mk("Network", "missing", net["missing"])]},
+        {"init": True, "cmds": [["disable"], mk("IafCell", "typo", iaf["typo"]), mk("IafCell", "missing", iaf["missing"]),
+                                ["helper", "intra:invalid"], ["helper", "segment:invalid-point"],
+                                mk("IafCell", "missing", iaf["missing"]), ["enable"], mk("IafCell", "typo", iaf["typo"]),
+                                mk("IafCell", "missing", iaf["missing"]), mk("IafCell", "valid", iaf["valid"])]},
+        {"init": False, "cmds": [mk("Cell", "boundary", dict(cellv, id="c0\n")), ["helper", "setup:invalid-cell"],
+                                 mk("Network", "missing", net["missing"]), ["helper", "sectionise:valid"],
+                                 mk("Network", "missing", net["missing"], False)]},
+    ]
 
 
 def regenerate(ctx):
     gaps, summ = members_extract.regenerate(fw.REPO, fw.LEAN)
     ctx.extra["member_table"] = summ
-    return gaps
+    gaps2, summ2, sites = factory_extract.regenerate(fw.REPO, fw.LEAN)
+    ctx.extra["factory_translation"] = summ2
+    known = {h["method"] for h in HELPERS.values()}
+    for s in sites:
+        if s["method"] not in known:
+            gaps2.append("helper %s.%s calls %s: no invocation for it in harness/props/c09.py (HELPERS)"
+                         % (s["owner"], s["method"], s["text"]))
+    return gaps + gaps2
 
 
 def run(ctx):
     C = c10.classes()
     names = list(C)
     saved = c10.get_switch()
+    global _SITES
+    _SITES = None
     try:
         nvalid = 0
         for n in names:
             cf, cv, odd, _o = measure(n, valid_kwargs(n))
             nvalid += 1 if cv else 0
         ctx.extra["types_with_valid_keywords"] = "%d/%d" % (nvalid, len(names))
+        ctx.extra["types_with_schema_valid_keywords"] = "%d/%d" % (sum(1 for n in names if xsd_base_ok(n)), len(names))
+        ctx.extra["types_with_boundary_member"] = "%d/%d" % (sum(1 for n in names if boundary_members(n)), len(names))
         run_factory(ctx, corpus_cases(ctx), "corpus")
+        run_sessions(ctx, corpus_sessions(ctx), "corpus-session")
+        run_helpers(ctx)
+        run_misc(ctx)
         # every type x keyword kinds x 4 settings (x both forms in thorough)
         run_factory(ctx, gen_factory_cases(ctx, names, ctx.n(4, 8)), "factory")
         ctx.extra["exhaustive"] = ctx.tier == "thorough"
         ctx.extra["exhaustive_what"] = ("all %d component types x keyword kinds x 4 switch settings%s; all %d (parent, child) pairs "
-                                        "with a candidate member for add(<type>)" % (
-                                            len(names), " x both forms" if ctx.tier == "thorough" else " (forms alternate)", len(pairs())))
+                                        "with a candidate member for add(<type>); all %d helper call sites x switch" % (
+                                            len(names), " x both forms" if ctx.tier == "thorough" else " (forms alternate)", len(pairs()),
+                                            len(model_sites()["sites"])))
         ps = pairs()
         reps = ctx.n(1, 3) * ctx.search_mult
         scripts = [addtype_script(ctx.rng, p, c, m, nc) for _ in range(reps) for (p, c, m, _cont, nc) in ps]
@@ -684,8 +1193,15 @@ def run(ctx):
 
 def replay(ctx, payload):
     """re-run the stored call: keyword arguments are stored in the case (components as {"__c__": class})"""
-    case = payload["case"]
+    case = payload.get("case") or {}
     saved = c10.get_switch()
+
+    def cmd_dec(c):
+        if c[0] in ("make", "addt"):
+            d = dict(c[1])
+            d["_kw"] = kw_dec(d["kw"])
+            return [c[0], d]
+        return c
     try:
         if "factory" in case:
             d = dict(case["factory"])
@@ -697,15 +1213,11 @@ def replay(ctx, payload):
             run_addtype(ctx, [{"parent": d["parent"], "parent_valid_kw": True, "calls": [d]}], "replay")
         elif "session" in case:
             s = case["session"]
-            cmds = []
-            for c in s["cmds"]:
-                if c[0] == "make":
-                    d = dict(c[1])
-                    d["_kw"] = kw_dec(d["kw"])
-                    cmds.append(["make", d])
-                else:
-                    cmds.append(c)
-            run_sessions(ctx, [{"init": s["init"], "cmds": cmds}], "replay")
+            run_sessions(ctx, [{"init": s["init"], "cmds": [cmd_dec(c) for c in s["cmds"]]}], "replay")
+        elif "helper" in case:
+            run_helpers(ctx, [case["helper"]["helper"]], "replay")
+        elif "misc" in case:
+            run_misc(ctx)
         else:
             return {"fails": False, "note": "nothing to replay (obligation-level record)"}
     finally:
